@@ -6,6 +6,7 @@ import HtpModel.Lemmas.OwedOut
 import HtpModel.Pinned.Eq
 import HtpModel.Lemmas.History
 import HtpModel.Lemmas.CFunsBuffer
+import HtpModel.Lemmas.TxCountOut
 
 namespace Htp.C10
 open Htp.Conn Htp.Gen
@@ -220,6 +221,21 @@ theorem C10_translated_buffer_is_model (fuel : Nat) (d : Dir) (hard : Nat)
         (connp_out_tx_cfg_field_limit_hard := hard) (alloc_ok := 1)).map (·.1) = some (-1)) ↔ d.buffer hard false = none) :=
   ⟨Htp.CFuns.htp_connp_req_buffer_error_iff fuel d hard hc0 hcr hrl hl hbl hhl,
    Htp.CFuns.htp_connp_res_buffer_error_iff fuel d hard hc0 hcr hrl hl hbl hhl⟩
+
+/-- **C10 (max_tx over whole call histories)**: with a non-zero `max_tx`, after ANY list of calls on a freshly created connection parser - request
+    and response chunks in any interleaving (also gaps and NULL chunks: the data functions are covered for every data / len), open,
+    req_close, close, tx_freed, any callback policy - and after every prefix of it, the connection holds at most `max_tx + 1` transaction slots.
+    Creation (`txCreate`, reached from REQ_IDLE and from the response side's unmatched-response path) is the only operation that appends to the
+    list and it refuses once more than `max_tx` are held; every other function of both directions keeps the length or shrinks it
+    (`Lemmas/TxCount.lean`, `TxCountOut.lean`: the frame families `KeepLen` / `GrowB`). -/
+theorem C10_history_maxtx (cfg : Cfg) (hm : 0 < cfg.maxTx) (calls pre : List Call) (hp : pre <+: calls) :
+    (runCalls cfg {} pre).txs.length ≤ cfg.maxTx + 1 :=
+  history_txs_bounded_fresh_prefix cfg hm calls pre hp
+
+/-- non-vacuity: with max_tx = 2 four pipelined requests in one chunk leave exactly 3 slots (the fourth creation is refused) -/
+example :
+    let four := (b!"GET / HTTP/1.1\r\nHost: h\r\n\r\nGET / HTTP/1.1\r\nHost: h\r\n\r\nGET / HTTP/1.1\r\nHost: h\r\n\r\nGET / HTTP/1.1\r\nHost: h\r\n\r\n")
+    (runCalls { maxTx := 2 } {} [.open, .req four]).txs.length = 3 := by decide
 
 /-- **C10 (the constants are the reviewed ones)**: every constant the translator reads from the current source - among them the limits (field limits, repetition and folding caps, list sizes) -
     equals its reviewed snapshot (lean/HtpModel/Pinned); the model follows a regenerated constant, so this is what notices a changed one -/
